@@ -12,58 +12,99 @@ def fitness_of(canon_string: str) -> float:
     return float(int.from_bytes(h[:2], "big") % 7)  # coarse: ties and plateaus happen
 
 
-def run(case, full=False):
+def _make_init(case, w):
+    """The population initialiser object of the configuration (None = the algorithm's default)."""
+    if case["alg"] != "gp" or case["rep"] != "tree":
+        return None
+    kind = case.get("init", "standard")
+    if kind in ("full", "grow", "pigrow", "ramped"):
+        return w.initializer(kind)
+    if kind == "inject":
+        from geneticengine.random.sources import NativeRandomSource
+        from geneticengine.representations.tree.operators import InjectInitialPopulationWrapper
+
+        r = NativeRandomSource(case["seed"] + 1)
+        rep0 = w.make_rep(w.make_decider(r), "tree")  # its own decider: no draw from the search's source
+        progs = [rep0.create_genotype(r) for _ in range(case.get("inject_n", 3))]
+        return InjectInitialPopulationWrapper(progs, w.initializer("standard"))
+    return None
+
+
+def _make_step(case):
+    if case["alg"] == "gp" and case.get("gp_step") == "crossover-heavy":
+        from vk.steps import build_step
+
+        return build_step(["par", [["elitism"], ["seq", [["tournament", 3, False], ["crossover", 1.0], ["mutation", 0.5]]]], [1, 9]])
+    return None
+
+
+def _one_search(case, w, init, step, full):
+    from vk.refmodel import canon, canon_str
+
+    info = w.info
+    seq: list[str] = []
+    err = None
+    best_s, best_f = None, None
+    try:
+
+        def ff(p):
+            s = canon_str(canon(p, info))
+            seq.append(s)
+            return fitness_of(s)
+
+        _, best = w.search(case["alg"], case["budget"], case["popsize"], fitness=ff, minimize=case["minimize"], initializer=init, step=step)
+        if best is not None:
+            best_s = canon_str(canon(best.get_phenotype(), info))
+            best_f = best.get_fitness(w.last_problem).fitness_components[0]
+    except Exception as e:  # noqa: BLE001
+        err = type(e).__name__
+    h = hashlib.sha256("\n".join(seq).encode()).hexdigest()
+    out = {"n": len(seq), "sha": h, "best": best_s, "best_fitness": best_f, "error": err, "distinct": len(set(seq))}
+    if full:
+        out["seq"] = seq
+    return out
+
+
+def run(case, full=False, repeats=1):
+    """repeats == 1: one search, returns its digest. repeats > 1: the configuration objects that
+    carry no seed (grammar, initialiser, step) are built once and shared by `repeats` searches run
+    one after the other, each with a fresh random source / decider / representation of the same
+    seed; returns the list of digests."""
     import logging
 
     logging.disable(logging.CRITICAL)
     import warnings
 
     warnings.simplefilter("ignore")
-    from vk.refmodel import canon, canon_str
     from vk.world import World
 
     from geneticengine.random.sources import NativeRandomSource
 
+    bad = {"n": 0, "sha": "", "best": None, "best_fitness": None, "distinct": 0, "seq": []}
     try:
         w = World(case, source_factory=NativeRandomSource)
     except Exception as e:  # noqa: BLE001 - grammar extraction failed: not C08's business
-        return {"n": 0, "sha": "", "best": None, "best_fitness": None, "error": "extract-" + type(e).__name__, "distinct": 0, "seq": []}
+        r = {**bad, "error": "extract-" + type(e).__name__}
+        return r if repeats == 1 else [r] * repeats
     try:
-        info = None
-        seq: list[str] = []
-        err = None
-        best_s, best_f = None, None
         try:
             w.build()
-            info = w.info
-
-            def ff(p):
-                s = canon_str(canon(p, info))
-                seq.append(s)
-                return fitness_of(s)
-
-            init = None
-            if case["alg"] == "gp" and case["rep"] == "tree" and case.get("init") == "full":
-                from geneticengine.representations.tree.operators import FullInitializer
-
-                init = FullInitializer(w.max_depth)
-            step = None
-            if case["alg"] == "gp" and case.get("gp_step") == "crossover-heavy":
-                from vk.steps import build_step
-
-                step = build_step(["par", [["elitism"], ["seq", [["tournament", 3, False], ["crossover", 1.0], ["mutation", 0.5]]]], [1, 9]])
-            _, best = w.search(case["alg"], case["budget"], case["popsize"], fitness=ff, minimize=case["minimize"], initializer=init, step=step)
-            if best is not None:
-                best_s = canon_str(canon(best.get_phenotype(), info))
-                best_f = best.get_fitness(w.last_problem).fitness_components[0]
+            init = _make_init(case, w)
+            step = _make_step(case)
         except Exception as e:  # noqa: BLE001
-            err = type(e).__name__
-        # the fitness function in World.search records every argument in order -> use seq
-        h = hashlib.sha256("\n".join(seq).encode()).hexdigest()
-        out = {"n": len(seq), "sha": h, "best": best_s, "best_fitness": best_f, "error": err, "distinct": len(set(seq))}
-        if full:
-            out["seq"] = seq
-        return out
+            r = {**bad, "error": type(e).__name__}
+            return r if repeats == 1 else [r] * repeats
+        outs = []
+        for k in range(repeats):
+            if k > 0:
+                w.random = NativeRandomSource(case.get("seed", 0))
+                try:
+                    w.build()
+                except Exception as e:  # noqa: BLE001
+                    outs.append({**bad, "error": type(e).__name__})
+                    continue
+            outs.append(_one_search(case, w, init, step, full))
+        return outs[0] if repeats == 1 else outs
     finally:
         w.cleanup()
 
